@@ -387,7 +387,17 @@ def rng(seed, salt=""):
     return random.Random("%s/%s" % (seed, salt))
 
 
-def diff_streams(res, name, cases, a, b, canon=lambda x: x, max_report=3, keyfn=None):
+def panic_class(x):
+    """model `panic <site>` and implementation `panic <file:line>` agree as a class; which site it is, is C08's subject"""
+    return "panic" if x.startswith("panic") else x
+
+
+def third_party_key(o):
+    """known-finding key of a panic inside a third-party crate (cargo registry path)"""
+    return ("third-party:" + o.split("/src/")[-1]) if "/.cargo/registry/" in o else None
+
+
+def diff_streams(res, name, cases, a, b, canon=panic_class, max_report=3, keyfn=None):
     """compare model and implementation answers case by case"""
     nd = 0
     for c, x, y in zip(cases, a, b):
